@@ -106,6 +106,42 @@ theorem reconnect_resyncs (objs dead : List Ref) (p : Peer) (hd : p.conn = .down
   rw [hc]
   exact ⟨rfl, fun k => mem_callbackRegs objs dead k⟩
 
+/-- On a fresh connection the command that triggered the reconnect adds nothing: `connectCallback` has just registered
+exactly the live names, and the REGISTER / UNREGISTER chosen from the same state leaves that set unchanged. (So a
+`Command` that returned right after a successful reconnect without sending its command — seeded change C16-m5 — can
+no longer lose an UNREGISTER: with F14 the callback never registers the object being deleted. The change is still
+reported through the tie `command_shape`.) -/
+theorem reconnect_makes_command_redundant (objs dead : List Ref) (t c : String) (k : Key) :
+    k ∈ (if nameLive objs dead t c then register t c else unregister t c) (callbackRegs objs dead) ↔
+      k ∈ callbackRegs objs dead := by
+  by_cases hl : NameLive objs dead (t, c)
+  · rw [if_pos ((nameLive_iff _ _ _ _).mpr hl), mem_register]
+    constructor
+    · rintro (rfl | rfl | h)
+      · exact (mem_callbackRegs _ _ _).mpr hl
+      · exact (mem_callbackRegs _ _ _).mpr ⟨hl.1, Or.inl rfl⟩
+      · exact h
+    · intro h; exact Or.inr (Or.inr h)
+  · have hb : nameLive objs dead t c = false := by
+      cases h : nameLive objs dead t c
+      · rfl
+      · exact absurd ((nameLive_iff _ _ _ _).mp h) hl
+    rw [hb]
+    simp only [Bool.false_eq_true, if_false, mem_unregister]
+    constructor
+    · intro h; exact h.1
+    · intro h
+      refine ⟨h, ?_⟩
+      have hk := (mem_callbackRegs _ _ _).mp h
+      split
+      · rename_i hc
+        intro heq
+        apply hl
+        refine ⟨?_, Or.inl hc⟩
+        have := hk.1
+        rw [heq] at this; exact this
+      · intro heq; rw [heq] at hk; exact hl hk
+
 /-- when nothing is being deleted the live names are exactly the objects in the maps -/
 theorem nameLive_iff_in_maps (objs dead : List Ref) (hs : ChanHasTopic objs) (hq : ∀ r ∈ objs, r ∉ dead) (k : Key) :
     NameLive objs dead k ↔ ∃ r ∈ objs, r.key = k := by
